@@ -1,6 +1,7 @@
 package main
 
 import (
+	"verif/shim/vlock"
 	"encoding/json"
 	"fmt"
 	"os"
@@ -823,6 +824,7 @@ func c26(r *engine.Run) {
 	}
 	// Part B runs in this process meanwhile (it is the only user of vtime/vrand here)
 	wide := c26partB(r)
+	lockEvals, lockPoints := c26partC(r, wide)
 	wg.Wait()
 
 	total := engine.BFSResult{Outcomes: map[string]int{}, Exhaustive: true}
@@ -897,6 +899,8 @@ func c26(r *engine.Run) {
 	cov["max_depth"] = depth
 	cov["configurations"] = perCfg
 	cov["state_counters"] = counters
+	cov["lock_boundary_interleavings"] = map[string]interface{}{"evaluations": lockEvals, "acquisition_points_seen": lockPoints,
+		"rule": "for Max ∈ {2,3} × initial fill ∈ {Max-2, Max-1} × first operation A ∈ {AddPeers(3 new), AddPeers(1 known + 2 new), AddPeer(new)} × second operation B ∈ {AddPeer(new), AddPeers(2 new), RemovePeer(known)}: B is run to completion at EVERY lock-acquisition point of A (shim/vlock), then the list is judged (size ≤ Max, valid addresses)"}
 	cov["single_step"] = map[string]interface{}{
 		"address_alphabet":    len(c26FullAlphabet),
 		"evaluations":         wide.evals,
@@ -906,6 +910,84 @@ func c26(r *engine.Run) {
 		"allow_localhost_set": []bool{false, true},
 	}
 	r.Finish(cov)
+}
+
+// c26partC enumerates the schedules in which a second peer-list operation runs to completion between two critical sections of a
+// bulk add (one preemption at a lock boundary): shim/vlock calls back before every Lock/RLock of the first operation.
+func c26partC(r *engine.Run, w *c26wide) (int, int) {
+	vtime.SetUnix(c26T0)
+	known := []string{"44.44.44.1:4001", "44.44.44.2:4002", "44.44.44.3:4003"}
+	fresh := []string{"55.55.55.1:5001", "55.55.55.2:5002", "55.55.55.3:5003"}
+	other := []string{"66.66.66.1:6001", "66.66.66.2:6002"}
+	type opf struct {
+		name string
+		run  func(px *pex.Pex)
+	}
+	evals, maxPoints := 0, 0
+	seq := 0
+	for _, max := range []int{2, 3} {
+		for _, fill := range []int{max - 2, max - 1} {
+			if fill < 0 {
+				continue
+			}
+			as := []opf{
+				{"AddPeers(3 new)", func(px *pex.Pex) { px.AddPeers(fresh) }},
+				{"AddPeers(1 known + 2 new)", func(px *pex.Pex) { px.AddPeers([]string{known[0], fresh[0], fresh[1]}) }},
+				{"AddPeer(new)", func(px *pex.Pex) { px.AddPeer(fresh[0]) }}, //nolint:errcheck
+			}
+			bs := []opf{
+				{"AddPeer(new)", func(px *pex.Pex) { px.AddPeer(other[0]) }}, //nolint:errcheck
+				{"AddPeers(2 new)", func(px *pex.Pex) { px.AddPeers(other) }},
+				{"RemovePeer(known)", func(px *pex.Pex) { px.RemovePeer(known[0]) }},
+			}
+			for _, a := range as {
+				for _, b := range bs {
+					for target := 1; target <= 12; target++ {
+						seq++
+						dir := filepath.Join(engine.Scratch(), fmt.Sprintf("c26c-%d", seq))
+						os.MkdirAll(dir, 0o755)
+						px, err := c26newPex(c26cfg{Max: max}, dir, nil, "")
+						if err != nil {
+							r.Broken("part C: pex.New: %v", err)
+							return evals, maxPoints
+						}
+						for i := 0; i < fill; i++ {
+							px.AddPeer(known[i]) //nolint:errcheck
+						}
+						points, fired := 0, false
+						vlock.Interleave = func() {
+							points++
+							if points == target {
+								fired = true
+								b.run(px)
+							}
+						}
+						pan, msg := engine.Catch(func() { a.run(px) })
+						vlock.Interleave = nil
+						if points > maxPoints {
+							maxPoints = points
+						}
+						os.RemoveAll(dir)
+						if !fired {
+							break // A has fewer acquisition points than target
+						}
+						evals++
+						cs := map[string]interface{}{"max": max, "initial_peers": fill, "A": a.name, "B": b.name, "B_runs_before_lock_acquisition_no": target}
+						if pan {
+							r.Failf("Pex:panic:interleaved-at-lock-boundary", cs, "%s with %s at acquisition %d: panic %s", a.name, b.name, target, msg)
+							continue
+						}
+						v, _, _ := c26view(px)
+						w.outcomes.Add("lock-boundary:" + a.name + "|" + b.name)
+						for _, f := range model.JudgeList(v, max, false, "Pex.interleaved") {
+							r.Failf(f.Sig+":second-operation-between-two-critical-sections", cs, "Max=%d, %d peers, %s with %s executed before its lock acquisition no. %d: %s", max, fill, a.name, b.name, target, f.Detail)
+						}
+					}
+				}
+			}
+		}
+	}
+	return evals, maxPoints
 }
 
 func tail(b []byte) string {
